@@ -19,9 +19,12 @@ def main():
     os.makedirs(workdir, exist_ok=True)
     src = os.path.join(os.path.dirname(os.path.abspath(__file__)), "c18_probes.c")
     res = dict(functions=0, cycles=0, violations=[], internal="")
-    for opt in ("-O2", "-O3"):
-        obj = os.path.join(workdir, "c18_probes%s.o" % opt)
-        r = sh(["gcc", opt, "-w", "-I%s/include" % repo, "-include", "%s/include/config.h" % repo, "-c", src, "-o", obj])
+    # client code as built against the exported symbols and as built with the static inline implementation (_LGPL_SOURCE)
+    for opt, lgpl in (("-O2", False), ("-O3", False), ("-O2", True), ("-O3", True)):
+        obj = os.path.join(workdir, "c18_probes%s%s.o" % (opt, "_lgpl" if lgpl else ""))
+        r = sh(["gcc", opt, "-w"] + (["-D_LGPL_SOURCE"] if lgpl else []) + ["-I%s/include" % repo, "-include", "%s/include/config.h" % repo,
+                                                                             "-c", src, "-o", obj])
+        opt = opt + (" -D_LGPL_SOURCE" if lgpl else "")
         if r.returncode:
             res["internal"] = "probe compile failed: " + r.stdout[-400:]
             break
@@ -38,6 +41,19 @@ def main():
                 funcs[cur].append((int(m.group(1), 16), re.sub(r"\s+<.*>$", "", m.group(2).strip())))
         for name, insns in funcs.items():
             res["functions"] += 1
+            if name.startswith("pub_"):
+                # publisher probe: the initialising store ($0x11) and the later store ($0x22) are both emitted, in this order
+                texts = [t for _, t in insns]
+                i11 = [i for i, t in enumerate(texts) if re.match(r"mov[lq]?\s+\$0x11,", t)]
+                i22 = [i for i, t in enumerate(texts) if re.match(r"mov[lq]?\s+\$0x22,", t)]
+                res["publishers"] = res.get("publishers", 0) + 1
+                if not i22:
+                    res["internal"] = "publisher probe %s: cannot find the second store: %s" % (name, "; ".join(texts))
+                elif not i11 or min(i11) > min(i22):
+                    res["violations"].append("%s compiled at %s: the store that initialises the node before it is published was removed or moved "
+                                             "below the publication (rcu_assign_pointer no longer orders it for the compiler): %s"
+                                             % (name, opt, "; ".join(t for t in texts if not t.startswith(("nop", "data16", "cs ")))))
+                continue
             addrs = [a for a, _ in insns]
             idx = {a: i for i, a in enumerate(addrs)}
             succ = {i: [] for i in range(len(insns))}
